@@ -84,7 +84,7 @@ def run(sid, props):
         shutil.copytree("/tmp/evidence-keep", "/verif/evidence")
         shutil.rmtree("/tmp/evidence-keep", ignore_errors=True)
         # the generated tables must describe the restored tree again
-        sh("python3 /verif/tools/translate.py", "/verif")
+        sh("python3 /verif/tools/translate.py; python3 /verif/tools/translate_env.py", "/verif")
     json.dump(meta, open(f"{d}/meta.json", "w"), indent=1)
 
 if __name__ == "__main__":
